@@ -417,6 +417,28 @@ def h_short_bad_char(pos: int, ch: str) -> None:
         raise Violation(f"accepts-non-encoding :: {s!r} accepted but encodes back differently")
 
 
+def h_boundary(top: int, fill_hi: bool) -> None:
+    """22-character strings over the alphabet around the 2**128 boundary through the REAL functions (the most significant digit
+    is a choice variable, the next one is swept natively): ValueError, or a uuid that encodes back to the same string"""
+    from vf.xh import Violation, concrete, realize, reject_unless
+    import ak.short_uuid as mod
+    alphabet = list(mod._ALPHABET)
+    reject_unless(0 <= top < len(alphabet))
+    top, fill_hi = realize(top), realize(fill_hi)
+    with concrete():
+        for nxt in range(len(alphabet)):
+            s = (alphabet[-1] if fill_hi else alphabet[0]) * 20 + alphabet[nxt] + alphabet[top]
+            for fn in (mod.uuid_from_short_str, mod.uuid_from_str):
+                try:
+                    u = fn(s)
+                except ValueError:
+                    continue
+                except Exception as e:  # noqa
+                    raise Violation(f"reject-{type(e).__name__} :: {fn.__name__}({s!r}) raises {type(e).__name__} instead of ValueError")
+                if mod.uuid_to_short_str(u) != s:
+                    raise Violation(f"accepts-non-encoding :: {fn.__name__}({s!r}) accepted but encodes back differently")
+
+
 def h_non_str(kind: int) -> None:
     from vf.xh import Violation, reject_unless
     import ak.short_uuid as mod
@@ -436,4 +458,5 @@ def jobs(tier: str) -> List[Job]:
         Job(module=__name__, func="h_from_str_canonical", budget_s=240 if t else 40, per_path_timeout=20, label="xh:from_str_canonical"),
         Job(module=__name__, func="h_short_bad_char", budget_s=240 if t else 40, per_path_timeout=20, label="xh:short_bad_char"),
         Job(module=__name__, func="h_non_str", budget_s=30, label="xh:non_str"),
+        Job(module=__name__, func="h_boundary", budget_s=240 if t else 60, label="xh:boundary-strings", must_exhaust=True),
     ]
